@@ -18,7 +18,7 @@ mkdir -p $ROOT/target; cp -r /verif/harness/target/release $ROOT/target/ 2>/dev/
 ( cd $ROOT/verif/harness && cargo build --release --quiet -j ${JOBS:-6} > $LOGS/build.log 2>&1 ) || { echo "BUILD-FAILED $NAME"; tail -20 $LOGS/build.log; git -C /repo worktree remove --force $ROOT/repo; rm -rf $ROOT; exit 2; }
 for ID in "$@"; do
   S=$(date +%s)
-  ( ulimit -v ${VMEM:-24000000}; cd $ROOT/verif/harness && $ROOT/target/release/check $ID --tier $TIER > $LOGS/$ID.log 2>&1 ); RC=$?
+  ( if [ "$TIER" != "thorough" ]; then ulimit -v ${VMEM:-24000000}; fi; cd $ROOT/verif/harness && $ROOT/target/release/check $ID --tier $TIER > $LOGS/$ID.log 2>&1 ); RC=$?
   echo "$NAME $ID exit=$RC $(( $(date +%s)-S ))s :: $(grep -E 'violation in|VIOLATION|INCONCL' $LOGS/$ID.log | head -3 | cut -c1-300 | tr '\n' ' ')"
 done
 git -C /repo worktree remove --force $ROOT/repo; rm -rf $ROOT
